@@ -237,6 +237,30 @@ def run(prog, run):
     else:
         run.ok(r2c, tox.loc(), 'only routing attributes + error + serializeExtensions(writer, sceMode) + unknown extensions')
 
+    # ---- R2d: the per-pass driver does not touch fields that belong to one part (a two-pass parse, public then sensitive, must keep the first pass)
+    r2d = run.rule('C17.R2d', 'parseExtensions itself writes no field that belongs to the public or the sensitive part outside the matching mode guard (a reset there would wipe '
+                              'what the other pass of the public-then-sensitive parse recovered)', floor=1)
+    pes = prog.fn(MSG + '::parseExtensions')
+    Wpe = {}
+    for i, n in enumerate(pes.nodes):
+        if n['k'] == 'mem' and n.get('f', '').startswith(PRIV):
+            kind, how = classify_use(pes, i)
+            if kind in ('write', 'addr'):
+                Wpe.setdefault(n['name'], {}).setdefault(region_of(pes, i), []).append(i)
+    run.instance(r2d)
+    badw = []
+    for name, regs in sorted(Wpe.items()):
+        owner = 'Sensitive' if name in SENSITIVE else 'Public' if name in PUBLIC_OK else None
+        if owner and set(r.replace('PublicOnly', 'Public') for r in regs) - {owner}:
+            badw.append((name, owner, sorted(regs), regs[sorted(regs)[0]][0]))
+    if badw:
+        name, owner, regs, i = badw[0]
+        run.violation(r2d, 'parseExtensions#%s#unguarded-write' % name, pes.loc(i),
+                      'parseExtensions writes %s (a field of the %s part) under %s on every pass: parsing the public part and then the sensitive part into one object loses '
+                      'what the first pass recovered (%d such fields)' % (name, owner.lower(), regs, len(badw)))
+    else:
+        run.ok(r2d, pes.loc(), 'no part-owned field is written by the pass driver outside its guard (%d field writes seen)' % sum(len(v) for r in Wpe.values() for v in r.values()))
+
     # ---- R3 encrypted send path
     r3 = run.rule('C17.R3', 'the encrypted send path serializes the outer message with the constant QXmpp::ScePublic; encrypted inbound '
                             'messages are parsed in public mode', floor=2)
